@@ -106,6 +106,11 @@ func vfH_c11_small() {
 	end := vfIntIn(0, n)
 	r := &chunkReader{data: data, end: end}
 	r.sizes = [3]int{vfIntIn(0, 2), vfIntIn(1, 3), 2}
+	if n <= 3 {
+		// zero-length reads also AFTER a partial value has been buffered (streams of 4 bytes keep the fixed third size:
+		// the product with 4 free bytes was not run to completion in the time available)
+		r.sizes[2] = vfIntIn(0, 2)
+	}
 	eof := vfBool()
 	if eof {
 		r.err = io.EOF
